@@ -183,9 +183,10 @@ pub fn c01_key(f: &Finding, p: &Program, _o: &Outcome) -> Option<String> {
             // implicit one of `group`): the second forgets the first (C16 records the RQ side of it), the statement
             // reads `* EXCLUDE (b)` and the column excluded first is back
             {
-                let first_ex = sp.iter().position(|s| matches!(s, Step::SelectExcept(_)));
-                if let Some(k) = first_ex {
-                    let later = sp[k + 1..].iter().any(|s| matches!(s, Step::SelectExcept(_) | Step::Group { .. }));
+                // (either order: `group` excludes its keys from `this` implicitly)
+                let ex: Vec<bool> = sp.iter().filter(|s| matches!(s, Step::SelectExcept(_) | Step::Group { .. })).map(|s| matches!(s, Step::SelectExcept(_))).collect();
+                if ex.len() >= 2 && ex.iter().any(|x| *x) {
+                    let later = true;
                     let got_n = parse_names(&f.got).len();
                     let exp_n = serde_json::from_str::<Vec<Option<String>>>(&f.expected).map(|v| v.len()).unwrap_or(0);
                     if later && got_n > exp_n && (f.sql.contains("* EXCLUDE (") || f.sql.contains("* EXCEPT (")) {
@@ -386,6 +387,11 @@ pub fn names_key(f: &Finding, p: &Program, _o: &Outcome) -> Option<String> {
     let exp: Vec<Option<String>> = serde_json::from_str(&f.expected).unwrap_or_default();
     // dialects with `* EXCLUDE`: an exclusion over two joined relations of which one is only known through its
     // wildcard is written `SELECT u.* EXCLUDE (…), t.b` — the wildcard first, whatever the frame order
+    // an aggregate named like its key (two columns of one name, the key un-named by the model) on top of an
+    // `append`: the frame takes the bottom's name for the un-named column, SQL labels a UNION by its first branch
+    if f.sql.contains(" UNION ALL ") && main_frames(p).iter().any(|(fr, s)| matches!(s, Step::Group { keys, inner } if inner.iter().any(|x| matches!(x, Step::Aggregate(a) if a.iter().any(|(n, _, _)| keys.iter().any(|&k| fr.named(k) == Some(n.as_str())))))) ) {
+        return Some("append-under-aggregate-named-like-its-key-labelled-by-first-branch".into());
+    }
     // the branches of a UNION ALL written with different numbers of columns (recorded for the executed dialects as
     // a statement the engine rejects): the static column list of such a statement is that of its first branch
     if let Some((top, bottom)) = f.sql.split_once(" UNION ALL ") {
@@ -425,7 +431,7 @@ pub fn names_key(f: &Finding, p: &Program, _o: &Outcome) -> Option<String> {
         let mut b: Vec<String> = exp.iter().map(|e| e.clone().unwrap_or_default()).collect();
         a.sort();
         b.sort();
-        let star_first = f.sql.split("SELECT ").nth(1).map(|x| { let first = x.split(',').next().unwrap_or(""); first.contains(".* EXCLUDE (") || first.contains(".* EXCEPT (") }).unwrap_or(false);
+        let star_first = f.sql.rsplit("SELECT ").next().map(|x| { let first = x.split(',').next().unwrap_or(""); first.contains(".* EXCLUDE (") || first.contains(".* EXCEPT (") }).unwrap_or(false);
         if a == b && star_first {
             return Some("excluded-wildcard-written-in-front-of-earlier-columns".into());
         }
